@@ -64,7 +64,7 @@ pub fn check_text(text: &str, via_cli: bool) -> Result<Info, Violation> {
         names: names.clone(),
     };
     match front::run_text(text.as_bytes(), None, Some(limit)) {
-        Run::ParseErr(e) => return Err(v(format!("well-formed formula rejected: {}", e))),
+        Run::ParseErr(e) => return Err(front::rejection(text, "well-formed formula", &e, &cj)),
         Run::ParsePanic(p) => return Err(v(format!("parser panicked on a well-formed formula: {}", p))),
         Run::EvalPanic(p, _) => {
             if p.contains("rsbdd-verif: fp iteration limit") {
